@@ -298,6 +298,9 @@ class FluidPropertyInterExtra(FluidProperty):
     def to_dict(self):
         d = super(FluidPropertyInterExtra, self).to_dict()
         d.update({k: self.prop_getter.__dict__[k] for k in self.prop_getter_entries.keys()})
+        if isinstance(d["_fill_value_orig"], np.ndarray) and d["_fill_value_orig"].ndim == 0:
+            # method "interpolate": scipy keeps the fill value as a 0-d array, which cannot be written
+            d["_fill_value_orig"] = float(d["_fill_value_orig"])
         # d.update({"x_values": self.prop_getter.x, "y_values": self.prop_getter.y,
         #           "method": "interpolate_extrapolate"
         #           if self.prop_getter.fill_value == "extrapolate" else None})
